@@ -90,10 +90,38 @@ async def scenario(loop, plan, r):
         app._ezsp = ezsp
         app._watchdog_failures = 0
         app._watchdog_feed_counter = 0
+        between = plan.get("between") or []
+        if between:
+            import zigpy.types as zt
+
+            ezsp.add_callback(app.ezsp_callback_handler)
+            app.packet_received = lambda p: None
+            app.state.node_info.nwk = zt.NWK(0x0000)
+
+        async def other_activity(kind):
+            """Things that happen between two feeds and are NOT feeds: incoming traffic, confirmations, status
+            events, other commands that succeed.  None of them may touch the run of failed keep-alives."""
+            from vlib import refezsp
+
+            sim.mode = "ok"
+            aps = refezsp.aps_frame(260, 6, 1, 1, 0x0140, 0, 5)
+            if kind == "msg":
+                ezsp.frame_received(refezsp.enc_incoming_message(sim.table_version, sim.last_resp_seq & 0xFF, mtype=0, aps=aps, lqi=200, rssi=-40,
+                                                                 sender=0x1234, binding_index=0xFF, address_index=0xFF, message=b"\x01\x02\x03"))
+            elif kind == "sent":
+                ezsp.frame_received(refezsp.enc_message_sent(sim.table_version, sim.last_resp_seq & 0xFF, mtype=0, destination=0x1234, aps=aps, tag=9, status=0))
+            elif kind == "status":
+                ezsp.frame_received(refezsp.enc_stack_status(sim.table_version, sim.last_resp_seq & 0xFF, 0x90 if sim.table_version < 14 else 0x15))
+            elif kind == "cmd":
+                await ezsp.getNodeId()
+            await asyncio.sleep(0.01)
         consecutive = 0
         ordinal = 0
         saw_run = saw_recover = False
         for k, oc in enumerate(seq):
+            if k < len(between) and between[k]:
+                await other_activity(between[k])
+                r.cls("other-activity-between-feeds")
             sim.mode = {"err": "err@nop", "timeout": "timeout@nop"}.get(oc, oc) if v == 4 else oc
             n0 = len(sim.log)
             raised = None
@@ -178,7 +206,25 @@ def long_plans(draw):
         run = draw(st.integers(0, 7))
         seq += [draw(st.sampled_from(outs[1:])) for _ in range(run)]
         seq += ["ok"] * draw(st.integers(1, 40 if period == 180 else 3))
-    return {"v": v, "period": period, "seq": seq[:n]}
+    plan = {"v": v, "period": period, "seq": seq[:n]}
+    if draw(st.booleans()):
+        plan["between"] = draw(st.lists(st.sampled_from([None, None, None, "msg", "sent", "status", "cmd"]), min_size=n, max_size=n))
+    return plan
+
+
+def _worker_between(ctx, job):
+    """Runs of failures with one other event placed between two of the failed feeds."""
+    v, kind = job
+    outs = OUT4 if v == 4 else OUTN
+    for fail in outs[1:]:
+        if fail.startswith("ok"):
+            continue
+        for pos in range(1, 6):
+            seq = ["ok"] + [fail] * 6
+            between = [None] * len(seq)
+            between[pos] = kind
+            plan = {"v": v, "seq": seq, "between": between}
+            ctx.check(plan, check(plan), sample=(pos == 3 and kind == "msg"))
 
 
 def _worker_long(ctx, n):
@@ -194,4 +240,5 @@ def run(ctx):
     # split the heavy jobs further by running them through the pool
     ctx.parallel(_worker_exh, jobs)
     ctx.exhaustive[f"all outcome sequences: v4 length {L4}, v8/v13 length {LN}"] = True
+    ctx.parallel(_worker_between, [(v, kind) for v in (4, 8, 13, 14) for kind in ("msg", "sent", "status", "cmd")])
     ctx.parallel(_worker_long, [12] * 16 if quick else [300] * 16)
